@@ -1,2 +1,98 @@
+//! `batch` (C04): multi-block / buffer-to-buffer calls against per-block observations.
+
 use super::*;
-pub fn run(_cx: &mut Ctx, _args: &Args, _rng: &mut Rng) -> i32 { 2 }
+use std::collections::HashSet;
+
+fn pattern(kind: usize, j: usize, bs: usize, salt: &[u8]) -> Vec<u8> {
+    match kind {
+        // all blocks distinct in every byte position
+        0 => (0..bs).map(|i| (j as u8).wrapping_mul(37).wrapping_add((i as u8).wrapping_mul(11)).wrapping_add(salt[i % salt.len()])).collect(),
+        // all equal
+        1 => salt.iter().cycle().take(bs).copied().collect(),
+        // pairwise differing in exactly one byte, never byte 0
+        2 => {
+            let mut b: Vec<u8> = salt.iter().cycle().take(bs).copied().collect();
+            let pos = 1 + (j % (bs - 1).max(1));
+            if bs > 1 {
+                b[pos] ^= 1 + (j / (bs - 1).max(1)) as u8;
+            }
+            b
+        }
+        _ => unreachable!(),
+    }
+}
+
+pub fn run(cx: &mut Ctx, args: &Args, rng: &mut Rng) -> i32 {
+    let mult = args.num("mult", 3) as usize; // n ranges over 0..=mult*par+2
+    let offsets_all = args.get("offsets") == Some("all");
+    let nrandom = args.num("random", 2) as usize;
+    for ti in cx.select(args) {
+        let (name, bs, ksz) = (cx.types[ti].name, cx.types[ti].bs, cx.types[ti].key_size);
+        let mut r = rng.fork(name);
+        let key = r.bytes(*key_lens(&cx.types[ti], false).last().unwrap_or(&ksz));
+        cx.reset(name);
+        let Some((id, inst)) = cx.construct(ti, "slice", &key, "random") else { cx.end(); continue };
+        let salt = r.bytes(bs);
+        let mut seen: HashSet<(bool, Vec<u8>)> = HashSet::new();
+        for dir in [Dir::Enc, Dir::Dec] {
+            let par = match dir {
+                Dir::Enc => inst.par_e(),
+                Dir::Dec => inst.par_d(),
+            };
+            let Some(par) = par else { continue };
+            let maxn = mult * par + 2;
+            let mut observe = |cx: &mut Ctx, data: &[u8], seen: &mut HashSet<(bool, Vec<u8>)>| {
+                for b in data.chunks(bs) {
+                    if seen.insert((dir == Dir::Enc, b.to_vec())) {
+                        cx.one(id, inst.as_ref(), dir, Shape::B2b, b);
+                    }
+                }
+            };
+            for n in 0..=maxn {
+                for (si, shape) in Shape::ALL.iter().enumerate() {
+                    let kind = (n + si) % 3;
+                    let data: Vec<u8> = (0..n).flat_map(|j| pattern(kind, j, bs, &salt)).collect();
+                    observe(cx, &data, &mut seen);
+                    cx.many(id, inst.as_ref(), dir, *shape, &data, r.below(16), r.below(16), None);
+                }
+            }
+            // random contents, a few larger sizes
+            for _ in 0..nrandom {
+                let n = maxn + 1 + r.below(2 * par + 3);
+                let data = r.bytes(n * bs);
+                observe(cx, &data, &mut seen);
+                cx.many(id, inst.as_ref(), dir, Shape::ALL[r.below(3)], &data, r.below(16), r.below(16), None);
+            }
+            // every (input offset, output offset) pair
+            if offsets_all {
+                let n = par + 1;
+                let data: Vec<u8> = (0..n).flat_map(|j| pattern(0, j, bs, &salt)).collect();
+                observe(cx, &data, &mut seen);
+                for oi in 0..16 {
+                    for oo in 0..16 {
+                        cx.many(id, inst.as_ref(), dir, if (oi + oo) % 2 == 0 { Shape::B2b } else { Shape::Inout }, &data, oi, oo, None);
+                    }
+                }
+                for oo in 0..16 {
+                    cx.many(id, inst.as_ref(), dir, Shape::Inplace, &data, 0, oo, None);
+                }
+            }
+            // mismatched lengths: must report the error and write nothing
+            for (n, on) in [(par + 1, par), (2, 3), (0, 1), (1, 0)] {
+                let data: Vec<u8> = (0..n).flat_map(|j| pattern(0, j, bs, &salt)).collect();
+                observe(cx, &data, &mut seen);
+                cx.many(id, inst.as_ref(), dir, Shape::B2b, &data, r.below(16), r.below(16), Some(on));
+                cx.many(id, inst.as_ref(), dir, Shape::Inout, &data, r.below(16), r.below(16), Some(on));
+            }
+            // direct backend calls: one par step + tail
+            for n in [0, 1, par.saturating_sub(1), par, par + 1, 2 * par - 1] {
+                let data: Vec<u8> = (0..n).flat_map(|j| pattern(2, j, bs, &salt)).collect();
+                observe(cx, &data, &mut seen);
+                cx.direct(id, inst.as_ref(), dir, &data);
+            }
+        }
+        cx.drop_inst(id, inst);
+        cx.end();
+    }
+    0
+}
